@@ -17,6 +17,10 @@ using namespace vf;
 const char *vf::PROPERTY = "C07";
 
 typedef unsigned __int128 u128;
+// The permutation samplers allocate ~10 small GMP objects per card; with ASan's default 256 MB quarantine the
+// harness spends most of its time in page faults.  A smaller quarantine keeps the run CPU-bound (the driver's
+// ASAN_OPTIONS do not set this key, so this default applies); memory errors are still reported.
+extern "C" const char *__asan_default_options() { return "quarantine_size_mb=16"; }
 static const double ALPHA = 1e-9;
 
 // --------------------------------------------------------------------------- exact p-values
@@ -132,7 +136,7 @@ VF_ENUM(perm_full_histogram, 10, 20) {
   size_t idx = ctx.c.raw(); size_t n = 2 + idx % 5;
   uint64_t seed = ctx.c.seed64(); rng_seed(seed);
   size_t fact = 1; for (size_t i = 2; i <= n; i++) fact *= i;
-  uint64_t per = ctx.thorough ? 500 : 100, N = std::max<uint64_t>(per * fact, 20000);
+  uint64_t per = (n == 6 ? 60 : 100) * (ctx.thorough ? 5 : 1), N = std::max<uint64_t>(per * fact, 20000); // n=6: ~50 us per call under ASan
   std::string cfg = "perm n=" + std::to_string(n) + " N=" + std::to_string(N);
   Case cs(ctx, cfg, seed); ctx.label("n=" + std::to_string(n));
   VtmfPlayers P(small_group(), 1); SchindelhauerTMCG tmcg(16, 1, 4);
@@ -160,7 +164,7 @@ VF_ENUM(perm_marginals, 8, 16) {
   size_t idx = ctx.c.raw(); size_t n = NS[idx % 4];
   uint64_t seed = ctx.c.seed64(); rng_seed(seed);
   size_t i0 = ctx.c.index(n - 1);
-  uint64_t N = (n == 64 ? 48000 : n == 52 ? 32000 : 24000) * (ctx.thorough ? 4 : 1);
+  uint64_t N = (n == 64 ? 12000 : n == 52 ? 14000 : 24000) * (ctx.thorough ? 4 : 1); // ~3.5 us per card per call
   std::string cfg = "perm-marginals n=" + std::to_string(n) + " N=" + std::to_string(N) + " pair-position=" + std::to_string(i0);
   Case cs(ctx, cfg, seed); ctx.label("n=" + std::to_string(n));
   VtmfPlayers P(small_group(), 1); SchindelhauerTMCG tmcg(16, 1, 4);
@@ -190,7 +194,7 @@ VF_ENUM(perm_marginals, 8, 16) {
 
 // --------------------------------------------------------------------------- (3) rotations
 VF_ENUM(rotation_offsets, 63, 126) {
-  size_t idx = ctx.c.raw(); size_t n = 2 + idx % 63;
+  size_t idx = ctx.c.raw(); size_t n = 2 + (idx * 37) % 63; // every n in 2..64 once per 63 indices; the stride mixes sizes within a shard
   uint64_t seed = ctx.c.seed64(); rng_seed(seed);
   uint64_t N = std::max<uint64_t>(12000, 250 * n) * (ctx.thorough ? 4 : 1);
   std::string cfg = "rotation n=" + std::to_string(n) + " N=" + std::to_string(N);
@@ -231,7 +235,7 @@ static std::string hexul(unsigned long v) { std::ostringstream o; o << "0x" << s
 VF_ENUM(bounded_sampler_chi2, 48, 96) {
   size_t idx = ctx.c.raw(); const Sampler &S = SAMPLERS[idx % 3]; unsigned long m = MODS[(idx / 3) % NMODS];
   uint64_t seed = ctx.c.seed64(); rng_seed(seed);
-  uint64_t N = (ctx.thorough ? 2000000 : 500000);
+  uint64_t N = (ctx.thorough ? 8000000 : 2000000);
   std::string who = std::string(S.name) + (m ? "_mod" : "_ui"), ms = m ? (m <= 1000 ? std::to_string(m) : hexul(m)) : "2^64";
   std::string cfg = who + " m=" + ms + " N=" + std::to_string(N);
   Case cs(ctx, cfg, seed); ctx.label(S.name); ctx.label(m == 0 ? "ui" : m <= 4096 ? "small-m" : "large-m");
@@ -348,7 +352,8 @@ static const size_t NBITSIZES = sizeof(BITSIZES) / sizeof(BITSIZES[0]);
 VF_ENUM(residue_sampler, 132, 264) {
   size_t idx = ctx.c.raw(); const Sampler &S = SAMPLERS[idx % 3]; size_t cfgi = (idx / 3) % (big_moduli().size() + NBITSIZES);
   uint64_t seed = ctx.c.seed64(); rng_seed(seed);
-  uint64_t N = ctx.thorough ? 1000000 : 250000;
+  // the very-strong variants of randomm/randomb open /proc/sys/kernel/random/entropy_avail on every call (~90 us): fewer draws
+  bool slow = (idx % 3 == 0); uint64_t N = (slow ? 12000 : 250000) * (ctx.thorough ? 4 : 1);
   ctx.label(S.name);
   QuietCerr quiet;
   if (cfgi < big_moduli().size()) {
@@ -375,6 +380,7 @@ VF_ENUM(residue_sampler, 132, 264) {
     cs.finish(N);
   } else {
     unsigned long bits = BITSIZES[cfgi - big_moduli().size()]; std::string who = std::string(S.name) + "b", bs = std::to_string(bits);
+    if (!slow) N = std::min<uint64_t>(N, (ctx.thorough ? 100000000ULL : 25000000ULL) / bits);
     std::string cfg = who + " bits=" + bs + " N=" + std::to_string(N);
     Case cs(ctx, cfg, seed); ctx.label("randomb");
     unsigned tb = bits >= 6 ? 6 : (unsigned)bits; std::vector<uint64_t> top((size_t)1 << tb, 0), bit(bits, 0);
